@@ -119,6 +119,59 @@ impl TypeParams {
         }
     }
 
+    /// Reports concrete types that are defined in terms of their own type parameter, directly
+    /// (`type T = Vec<T>`) or through other parameters (`type T = Vec<U>, type U = Box<T>`), and
+    /// drops them: substituting such a definition would never end.
+    pub fn check_cycles(&mut self, errors: &mut Errors) {
+        fn mentions(ty: &Type, params: &[(Ident, Option<Type>)]) -> Vec<usize> {
+            let mut found = Vec::new();
+            let mut ty = ty.clone();
+            traverse_type(&mut ty, &mut |ty| {
+                if let Type::Path(tp) = ty {
+                    if tp.qself.is_none() {
+                        if let Some(i) = params.iter().position(|(name, _)| tp.path.is_ident(name)) {
+                            found.push(i);
+                        }
+                    }
+                }
+            });
+            found
+        }
+
+        let edges: Vec<Vec<usize>> = self
+            .type_params
+            .iter()
+            .map(|(_, ty)| match ty {
+                Some(ty) => mentions(ty, &self.type_params),
+                None => Vec::new(),
+            })
+            .collect();
+
+        for start in 0..edges.len() {
+            let mut seen = vec![false; edges.len()];
+            let mut stack = edges[start].clone();
+            let mut cyclic = false;
+            while let Some(i) = stack.pop() {
+                if i == start {
+                    cyclic = true;
+                    break;
+                }
+                if !std::mem::replace(&mut seen[i], true) {
+                    stack.extend(edges[i].iter().copied());
+                }
+            }
+            if cyclic {
+                let (name, slot) = &mut self.type_params[start];
+                if let Some(ty) = slot.take() {
+                    errors.err(
+                        format!("The concrete type of {name} is defined in terms of {name} itself"),
+                        ty.span(),
+                    );
+                }
+            }
+        }
+    }
+
     pub fn find(&self, path: &Path) -> Option<Type> {
         for (ident, ty) in &self.type_params {
             if path.is_ident(ident) {
